@@ -195,3 +195,71 @@ gen_family! {
     c01_gen_king_0: 5, 0; c01_gen_king_1: 5, 1; c01_gen_king_2: 5, 2;
     c01_gen_none_0: 6, 0; c01_gen_none_1: 6, 1; c01_gen_none_2: 6, 2;
 }
+
+// =====================================================================================================
+// C04 — is_legal(mv) == legality by the rules, for every accepted board and every move value.
+// The pawn branch runs the real add_pawn_legals loops on a one-square mask (uncut, completely unwound:
+// unwinding assertions prove that one iteration suffices).
+fn is_legal_contract(kind: u8) {
+    let p = any_inv_pos();
+    let m = any_move();
+    let q = mv_of(m);
+    let own = p.colors[p.stm as usize];
+    if kind < 6 {
+        kani::assume(own & sp::bit(q.from) != 0 && p.piece_at(q.from) == kind);
+    } else {
+        kani::assume(own & sp::bit(q.from) == 0);
+    }
+    let b = mk_board(&p);
+    assert!(b.is_legal(m) == sp::spec_legal(&p, q));
+}
+macro_rules! is_legal_family {
+    ($($name:ident: $k:expr;)*) => {$(
+        board_proof! { #[kani::unwind(9)] fn $name() { is_legal_contract($k); } }
+    )*};
+}
+is_legal_family! {
+    c04_is_legal_pawn: 0; c04_is_legal_knight: 1; c04_is_legal_bishop: 2; c04_is_legal_rook: 3;
+    c04_is_legal_queen: 4; c04_is_legal_king: 5; c04_is_legal_none: 6;
+}
+
+// =====================================================================================================
+// C12 — status().  The real status() runs generation with its own listener `|_| true`; the piece
+// loops are cut with the invariant "no processed square has a legal move" (MODE 1).
+fn status_code(s: GameStatus) -> u8 {
+    match s { GameStatus::Won => 0, GameStatus::Drawn => 1, GameStatus::Ongoing => 2 }
+}
+fn status_contract(kind: u8) {
+    let p = any_inv_pos();
+    let q = mv_of(any_move());
+    let own = p.colors[p.stm as usize];
+    kani::assume(own & sp::bit(q.from) != 0 && p.piece_at(q.from) == kind);
+    unsafe {
+        P0 = p; Q = q; MASK = !0; PLAN_A = 0; PLAN_B = 0;
+        QLEGAL = sp::spec_legal(&p, q);
+        MODE = 1;
+    }
+    let b = mk_board(&p);
+    cut_on();
+    let r = status_code(b.status());
+    let in_check = sp::spec_checkers(&p, p.stm) != 0;
+    let with_move = sp::spec_status(true, in_check, p.halfmove);
+    let without = sp::spec_status(false, in_check, p.halfmove);
+    // the answer is one of the two rows of the table ...
+    assert!(r == with_move || r == without);
+    // ... and it is the "has a legal move" row whenever some legal move exists (Q is arbitrary)
+    if unsafe { QLEGAL } {
+        assert!(r == with_move);
+    }
+    kani::cover!(r == 0);
+    kani::cover!(r == 1 && !in_check && without == 1 && with_move == 2);
+}
+macro_rules! status_family {
+    ($($name:ident: $k:expr;)*) => {$(
+        board_proof! { #[kani::unwind(9)] fn $name() { status_contract($k); } }
+    )*};
+}
+status_family! {
+    c12_status_pawn: 0; c12_status_knight: 1; c12_status_bishop: 2; c12_status_rook: 3;
+    c12_status_queen: 4; c12_status_king: 5;
+}
